@@ -5,6 +5,7 @@ import (
 	"go/token"
 	"go/types"
 	"sort"
+	"strconv"
 	"strings"
 )
 
@@ -633,10 +634,11 @@ func rootDesc(a *funcAn, r rootT) string {
 	case rRecv:
 		return "recv"
 	case rParam:
+		// by position and type, not by name: renaming a parameter is not a change of the fact
 		if r.i < len(a.plist) {
-			return "param " + a.plist[r.i].Name()
+			return "param #" + strconv.Itoa(r.i) + " " + types.TypeString(a.plist[r.i].Type(), func(p *types.Package) string { return p.Name() })
 		}
-		return "param ?"
+		return "param #" + strconv.Itoa(r.i)
 	case rGlobal:
 		return "global " + r.g.Pkg().Name() + "." + r.g.Name()
 	}
